@@ -566,6 +566,68 @@ func runC18(c *Ctx) {
 
 	// ---------- error discipline (E8)
 	errDisciplineFor(c, "C18")
+
+	// ---------- R18.14 wire decoders start from a fresh value
+	c.Rule("R18.14", "E1", "ResourceSpec.UnmarshalProto / UnmarshalJSON decode into a value allocated in the same call: the generated vtproto decoder merges into its target (zero-valued fields keep the target's content, repeated fields are appended), so decoding into a left-over value does not give back what was encoded", 2)
+
+	for _, name := range []string{"UnmarshalProto", "UnmarshalJSON"} {
+		f := p.Method(pkgResProto, "ResourceSpec", name)
+		if !c.NeedFunc("R18.14", f, "ResourceSpec."+name) {
+			continue
+		}
+
+		freshValue := func(in ssa.Instruction) bool {
+			st, ok := in.(*ssa.Store)
+			if !ok || !StoreToField("", "Value")(in) {
+				return false
+			}
+
+			al, isAlloc := Fwd(st.Val).(*ssa.Alloc)
+
+			return isAlloc && al.Heap
+		}
+		decode := func(in ssa.Instruction) bool {
+			call, ok := in.(*ssa.Call)
+			if !ok {
+				return false
+			}
+
+			// any call that is handed the spec's value: ProtoUnmarshal, protojson, the value's own UnmarshalJSON
+			for _, a := range CallArgs(call) {
+				for range 6 {
+					switch x := a.(type) {
+					case *ssa.MakeInterface:
+						a = x.X
+
+						continue
+					case *ssa.ChangeInterface:
+						a = x.X
+
+						continue
+					case *ssa.TypeAssert:
+						a = x.X
+
+						continue
+					case *ssa.ChangeType:
+						a = x.X
+
+						continue
+					}
+
+					break
+				}
+
+				if LoadsField(a, "", "Value") {
+					return true
+				}
+			}
+
+			return false
+		}
+
+		c.MustCut("R18.14", "decode into spec.Value ⊣ {spec.Value = new(T)}", f, decode, CutSpec{Nodes: freshValue}, 1)
+	}
+
 }
 
 // decoderBounds: every constant index / slice bound on parameter prm of f is implied by a dominating guard on len(param).
